@@ -93,18 +93,77 @@ theorem txOk_sub_bounds {t : Nat} {tx : Tx} (h : txOk t tx = true) :
   have := h.2 e he
   exact window_bounds hexp (by simpa using this)
 
-theorem verifyTxs_none {c : Ctx} {b : Block} (h : verifyTxs c b = none) :
-    c.onAncestor b.header.parentHash b.txs = false ∧ ∀ tx ∈ b.txs, txOk b.header.time tx = true := by
+theorem txsLoop_ok {t : Nat} : ∀ {txs : List Tx}, txsLoop t txs = .ok →
+    ∀ tx ∈ txs, txOk t tx = true ∧ tx.bodyPanics = false
+  | [], _ => by intro tx htx; cases htx
+  | x :: rest, h => by
+    unfold txsLoop at h
+    split at h
+    · cases h
+    · split at h
+      · cases h
+      · rename_i hp
+        split at h
+        · rename_i hok
+          intro tx htx
+          rcases List.mem_cons.mp htx with rfl | hr
+          · exact ⟨hok, by simpa using hp⟩
+          · exact txsLoop_ok h tx hr
+        · cases h
+
+theorem txsLoop_panic {t : Nat} : ∀ {txs : List Tx}, txsLoop t txs = .panic → ∃ tx ∈ txs, tx.bodyPanics = true
+  | [], h => by unfold txsLoop at h; cases h
+  | x :: rest, h => by
+    unfold txsLoop at h
+    split at h
+    · cases h
+    · split at h
+      · rename_i hp
+        exact ⟨x, List.mem_cons_self, hp⟩
+      · split at h
+        · obtain ⟨tx, htx, hp⟩ := txsLoop_panic h
+          exact ⟨tx, List.mem_cons_of_mem _ htx, hp⟩
+        · cases h
+
+theorem txsLoop_ne_saveFailed (t : Nat) : ∀ (txs : List Tx), txsLoop t txs ≠ .saveFailed
+  | [] => by unfold txsLoop; simp
+  | x :: rest => by
+    unfold txsLoop
+    split
+    · simp
+    · split
+      · simp
+      · split
+        · exact txsLoop_ne_saveFailed t rest
+        · simp
+
+theorem verifyTxs_ok {c : Ctx} {b : Block} (h : verifyTxs c b = .ok) :
+    (c.dupCheck = true → hasDup (blockHashes b.txs) = false) ∧
+    c.onAncestor b.header.parentHash b.txs = some false ∧
+    ∀ tx ∈ b.txs, txOk b.header.time tx = true ∧ tx.bodyPanics = false := by
+  unfold verifyTxs at h
+  split at h
+  · cases h
+  · rename_i hdup
+    split at h
+    · cases h
+    · cases h
+    · rename_i hanc
+      refine ⟨?_, hanc, txsLoop_ok h⟩
+      intro hc
+      simpa [hc] using hdup
+
+/-- `verifyTxs` panics only through its two named inputs -/
+theorem verifyTxs_panic {c : Ctx} {b : Block} (h : verifyTxs c b = .panic) :
+    c.onAncestor b.header.parentHash b.txs = none ∨ ∃ tx ∈ b.txs, tx.bodyPanics = true := by
   unfold verifyTxs at h
   split at h
   · cases h
   · split at h
-    · cases h
     · rename_i hanc
-      split at h
-      · rename_i hall
-        exact ⟨by simpa using hanc, by simpa [List.all_eq_true] using hall⟩
-      · cases h
+      exact Or.inl hanc
+    · cases h
+    · exact Or.inr (txsLoop_panic h)
 
 /-! ### rankOfMiner -/
 
@@ -172,7 +231,7 @@ theorem verifyMiner_ok {c : Ctx} {h parent : Header} (hv : verifyMiner c h paren
 theorem verifyBefore_ok {c : Ctx} {b : Block} (hv : verifyBefore c b = .ok) :
     ∃ parent, c.load b.header.parentHash = some parent ∧ verifySigner c b = none ∧
       c.merkleRoot b.txs = b.header.txRoot ∧ GoSem.uadd u32 parent.height 1 = b.header.height ∧
-      (b.header.time : Int) ≤ c.now + 1 ∧ b.header.extra.length ≤ 256 ∧ verifyTxs c b = none ∧
+      (b.header.time : Int) ≤ c.now + 1 ∧ b.header.extra.length ≤ maxExtraDataLen ∧ verifyTxs c b = .ok ∧
       verifyMiner c b.header parent = .ok := by
   unfold verifyBefore at hv
   simp only at hv
@@ -195,9 +254,10 @@ theorem verifyBefore_ok {c : Ctx} {b : Block} (hv : verifyBefore c b = .ok) :
             · cases hv
             · rename_i hex
               split at hv
-              · cases hv
               · rename_i htxs
                 refine ⟨parent, hload, hsig, by simpa using htx, by simpa using hh, by omega, by omega, htxs, hv⟩
+              · rename_i hne
+                exact absurd hv (hne · )
 
 /-! ### verifyAfter -/
 
@@ -260,6 +320,7 @@ theorem verifyAfter_panic {c : Ctx} {b : Block} (hv : verifyAfter c b = .panic) 
             · cases hv
 
 theorem verifyBefore_panic {c : Ctx} {b : Block} (hv : verifyBefore c b = .panic) :
+    verifyTxs c b = .panic ∨
     ∃ parent, c.load b.header.parentHash = some parent ∧ verifySigner c b = none ∧
       GoSem.uadd u32 parent.height 1 = b.header.height ∧ verifyMiner c b.header parent = .panic := by
   unfold verifyBefore at hv
@@ -280,8 +341,8 @@ theorem verifyBefore_panic {c : Ctx} {b : Block} (hv : verifyBefore c b = .panic
           · split at hv
             · cases hv
             · split at hv
-              · cases hv
-              · exact ⟨parent, hload, hsig, by simpa using hh, hv⟩
+              · exact Or.inr ⟨parent, hload, hsig, by simpa using hh, hv⟩
+              · exact Or.inl hv
 
 theorem verifyMinerCore_panic {t : GoRes Nat} {ds : List Deputy} {miner : Nat} (hv : verifyMinerCore t ds miner = .panic) :
     t = .panic ∨ ∃ r, t = .ok r ∧ ds[r]? = none := by
@@ -346,5 +407,78 @@ theorem correctMiner_of_gcm_err {n : Nat} {special : Bool} {pr : Option Nat} {pt
     correctMiner n special pr pts ph mt T = .err e := by
   unfold correctMiner
   rw [h]
+
+/-! ### `.saveFailed` is never a verdict of verification -/
+
+theorem verifyTxs_ne_saveFailed (c : Ctx) (b : Block) : verifyTxs c b ≠ .saveFailed := by
+  unfold verifyTxs
+  split
+  · simp
+  · split
+    · simp
+    · simp
+    · exact txsLoop_ne_saveFailed _ _
+
+theorem verifyMinerCore_ne_saveFailed (t : GoRes Nat) (ds : List Deputy) (miner : Nat) :
+    verifyMinerCore t ds miner ≠ .saveFailed := by
+  unfold verifyMinerCore
+  split
+  · simp
+  · simp
+  · split
+    · simp
+    · split <;> simp
+
+theorem verifyMiner_ne_saveFailed (c : Ctx) (h parent : Header) : verifyMiner c h parent ≠ .saveFailed := by
+  unfold verifyMiner
+  exact verifyMinerCore_ne_saveFailed _ _ _
+
+theorem verifyBefore_ne_saveFailed (c : Ctx) (b : Block) : verifyBefore c b ≠ .saveFailed := by
+  intro hvb
+  unfold verifyBefore at hvb
+  simp only at hvb
+  split at hvb
+  · cases hvb
+  · split at hvb
+    · cases hvb
+    · split at hvb
+      · cases hvb
+      · split at hvb
+        · cases hvb
+        · split at hvb
+          · cases hvb
+          · split at hvb
+            · cases hvb
+            · split at hvb
+              · exact verifyMiner_ne_saveFailed _ _ _ hvb
+              · exact verifyTxs_ne_saveFailed _ _ hvb
+
+theorem verifyAfter_ne_saveFailed (c : Ctx) (b : Block) : verifyAfter c b ≠ .saveFailed := by
+  intro hva
+  unfold verifyAfter at hva
+  simp only at hva
+  split at hva
+  · cases hva
+  · cases hva
+  · split at hva
+    · cases hva
+    · split at hva
+      · cases hva
+      · split at hva
+        · cases hva
+        · split at hva
+          · cases hva
+          · split at hva
+            · cases hva
+            · cases hva
+
+theorem accept_ne_saveFailed (c : Ctx) (b : Block) : accept c b ≠ .saveFailed := by
+  unfold accept
+  cases hvb : verifyBefore c b with
+  | ok => simpa using verifyAfter_ne_saveFailed c b
+  | ignored => simp
+  | reject r => simp
+  | panic => simp
+  | saveFailed => exact absurd hvb (verifyBefore_ne_saveFailed c b)
 
 end LemoProofs.ValidatorLemmas
